@@ -611,9 +611,19 @@ func (seqEngine) Gen(prop string, seed uint64, tier string) *Spec {
 			g.emit(&Op{K: "create", H: 0, N: name, How: 0})
 			id := g.ops[len(g.ops)-1].ID
 			nb := uint64(p.BigFileBlocks)
+			if rng.Chance(0.4) {
+				// sizes around the capacity of one transaction (the log holds 511 blocks):
+				// freeing "just fits" by the block count but not with the index, bitmap and
+				// inode blocks it also dirties
+				nb = uint64(488 + rng.Intn(30))
+			}
 			for off := uint64(0); off < nb*4096; off += 64 * 4096 {
+				n := uint64(64 * 4096)
+				if off+n > nb*4096 {
+					n = nb*4096 - off
+				}
 				g.nextPat++
-				g.emit(&Op{K: "write", H: id, Off: off, Len: 64 * 4096, Cnt: 64 * 4096, Pat: g.nextPat, How: rng.Intn(3)})
+				g.emit(&Op{K: "write", H: id, Off: off, Len: n, Cnt: n, Pat: g.nextPat, How: rng.Intn(3)})
 			}
 			if rng.Chance(0.5) {
 				g.emit(&Op{K: "remove", H: 0, N: name})
@@ -788,7 +798,7 @@ func (x *seqRun) quiescentChecks(where string, full bool) {
 		x.fail("conservation", "conservation:"+fe.clause, where+": "+err.Error())
 	}
 	if !x.crashed && info.HalfFreed > 0 {
-		x.fail("conservation", "conservation:half-freed", fmt.Sprintf("%s: background freeing has finished but %d free inodes still hold %d blocks", where, info.HalfFreed, info.HalfFreedBlks))
+		x.fail("conservation", "conservation:half-freed", fmt.Sprintf("%s: background freeing has finished but %d free inodes still hold %d blocks (%s)", where, info.HalfFreed, info.HalfFreedBlks, info.HalfFreedWhat))
 	}
 	// reachable objects = model objects
 	if live := len(x.m.LiveObjs()); info.InodesInUse != live {
